@@ -63,11 +63,13 @@ def oracle(ctx, cases):
 
 def run(ctx):
     runner.prove(ctx, MODULE, THEOREMS, FILES)
-    cases = substcorr.batch(ctx, ctx.n(90, 700), customs=True) + substcorr.list_form_cases(ctx) + substcorr.open_dict_any_cases(ctx, ctx.n(150, 1500)) + substcorr.untyped_pair_cases(ctx) + substcorr.list_window_cases(ctx) + substcorr.float_precision_cases(ctx) + substcorr.many_errors_cases(ctx) + substcorr.list_partial_dict_cases(ctx)
+    cases = substcorr.batch(ctx, ctx.n(90, 700), customs=True) + substcorr.list_form_cases(ctx) + substcorr.open_dict_any_cases(ctx, ctx.n(150, 1500)) + substcorr.untyped_pair_cases(ctx) + substcorr.untyped_edge_cases(ctx) + substcorr.list_window_cases(ctx) + substcorr.float_precision_cases(ctx) + substcorr.many_errors_cases(ctx) + substcorr.list_partial_dict_cases(ctx)
     for c in cases:
         substcorr.run_real(c)
     ctx.count("skipped_unencodable", sum(1 for c in cases if c.skip))
     oracle(ctx, cases)
+    from .. import limits
+    limits.recursion_probe(ctx, "C12")
     dis = substcorr.compare(cases, ctx)
     for c, detail in dis[:10]:
         ctx.breakage("correspondence", "substitution outcome differs between model and code",
